@@ -212,10 +212,10 @@ def main(tier):
             'PTRACE_GETREGS and the value the program\'s own asm stores; distinct = distinct (operation, alignment, length class, mapped)')
     V = Verdict('C15', tier, rule)
     V.minima = {'memory_reads': 1000, 'memory_writes': 300, 'register_writes': 15, 'register_writes_seen_by_program': 15} if tier == 'quick' else \
-        {'memory_reads': 60000, 'memory_writes': 20000, 'register_writes': 300, 'register_writes_seen_by_program': 300}
+        {'memory_reads': 60000, 'memory_writes': 20000, 'register_writes': 250, 'register_writes_seen_by_program': 250}
     V.assumptions = ['/proc/<pid>/mem and PTRACE_GETREGS read by the monitor are the truth']
     cfgs = [dict(tc='1.89', opt=0), dict(tc='1.95', opt=0), dict(tc='1.89', opt=1)]
-    n = 4 if tier == 'quick' else 24
+    n = 4 if tier == 'quick' else 64
     specs = [(i, cfgs[i % 3], tier) for i in range(n)]
     for res in common.safe_map(run_case, specs, procs=8):
         V.merge(res)
